@@ -102,7 +102,7 @@ var NontrivialRuleText = map[string]string{
 	"C14": "one program of >5 transcript entries executed under >=2 configurations; distinct = distinct hash of (program, configuration tuple)",
 	"C15": "case made >=3 writes through the reused, poisoned caller buffers; distinct = distinct case hash",
 	"C17": "case has >=3 exact Stat recomputations and >=1 overwrite or delete (or, 15% of the runs: concurrent clients, Stat recomputed at quiescence and after the restart); distinct = distinct case hash",
-	"C18": "case has >=1 hint file with >=2 entries compared entry by entry with the merged files; distinct = distinct case hash",
+	"C18": "case has >=1 hint file with >=2 entries compared entry by entry with the merged files (a fifth of the runs: the merge ran next to concurrent writers); distinct = distinct case hash",
 	"C16": "run has >=1 successful Open and >=1 rejected or failing Open; distinct = distinct hash of (party programs, explicit schedule)",
 	"C19": "command sequence with >5 judged commands; distinct = distinct hash of the executed case (commands, keys, clock steps)",
 	"C20": "case has >=1 backup of a database with >=2 acknowledged mutations; distinct = distinct case hash",
